@@ -30,6 +30,7 @@ const (
 	KCall      = "api.call"
 	KRet       = "api.ret"
 	KState     = "cb.state"
+	KStateRet  = "cb.state.ret" // the ConnState callback returned (Ref = seq of its entry)
 	KOnError   = "cb.onerror"
 	KHEnter    = "handler.enter"
 	KHExit     = "handler.exit"
